@@ -319,7 +319,7 @@ def cubic_spline(
         )
         # Like the linear and quadratic splines, never leave the unit interval by a rounding
         # error (an output of 1 + 1 ulp is rejected by whatever bounded transform comes next).
-        outputs = torch.clamp(outputs, 0, 1)
+        outputs = torchutils.clamp_preserve_gradients(outputs, 0, 1)
 
         logabsdet = torch.log(
             (
